@@ -75,6 +75,7 @@ func (t *vfC17T) Close() error                { return nil }
 
 func TestVerifC17AutoWire(t *testing.T) {
 	defer vfstat.Flush()
+	vfstat.Quiet()
 	const U = "C17.autowire"
 	rapid.Check(t, func(rt *rapid.T) {
 		n := rapid.IntRange(2, 9).Draw(rt, "n")
